@@ -48,7 +48,7 @@ def handle (inp out : String) : String :=
         let viol := pairs.findSome? fun (op, o) =>
           if (op == "s" || op == "c") then
             (if canon && o != "S1" && o != "C1" then some s!"serialization-changed-at-op-{op}:{o.take 12}" else none)
-          else if op.startsWith "v:" || op.startsWith "a:" then
+          else if op.startsWith "v:" || op.startsWith "a:" || op.startsWith "w:" then
             match o.splitOn "/" with
             | [h, f] => if h.drop 1 != f.drop 1 then some s!"verdict-on-the-used-object-{h}-differs-from-fresh-{f}" else none
             | _ => some s!"malformed-output-{o}"
@@ -60,7 +60,7 @@ def handle (inp out : String) : String :=
         | some why => s!"specfail h:{ops.length} {why}"
         | none =>
           let bad := pairs.findSome? fun (op, o) =>
-            if op.startsWith "v:" || op.startsWith "a:" then
+            if op.startsWith "v:" || op.startsWith "a:" || op.startsWith "w:" then
               match modelVerify s op with
               | some m =>
                 let h := (o.splitOn "/").headD "?"
